@@ -52,20 +52,20 @@ func init() {
 	reg("C01", ruleUnionIndexUnsignedOnTheWire, ruleEmittedCasesDoNotFallThrough, ruleUnionIndexSkipsNull, rulePlan, ruleRecordOrder, ruleDirectionDuality, ruleCppPrimitiveFamilies, ruleStepFraming, ruleEmptyBatchGuard, ruleEndStream, ruleTrivialRecordTrait, ruleCppEnumUnderlyingType)
 	reg("C16", ruleRequiredPerStepAndExitPropagates, ruleBatchReadReportsCounter, ruleEndStream, ruleStepFraming)
 	reg("C17", ruleConditionalTargetAssignmentsHaveElse, ruleTemporaryBatchHasCapacity, ruleEmittedReadersOverwrite, ruleBatchReadReportsCounter, ruleEmptyBatchGuard, ruleStepFraming, ruleFallbackBatchTruncates)
-	reg("C15", ruleSchemaTextExact, ruleSchemaListsAndDistinguishes, ruleDefinitionsKeyedByIdentity, ruleNoTestOfUnsetField, ruleStateMachineSchemaCheck, ruleMarshalCoverage, ruleSchemaCanonical, rulePrunes(schemaFiles, "V5", 2), ruleRewriterDescends(schemaFiles, "V8", 2), rulePreviousSchemasPositional)
-	reg("C03", ruleUnionTagDecision, ruleEnumDefaultBaseIsInt32, ruleUnionIndexSkipsNull, ruleEmittedSymbols, rulePlan, ruleJsonKinds, ruleTrivialRecordTrait, ruleJsonNamesAreModelNames, ruleCppEnumUnderlyingType)
+	reg("C15", ruleNoRunTimeGlobals, ruleSchemaTextExact, ruleSchemaListsAndDistinguishes, ruleDefinitionsKeyedByIdentity, ruleNoTestOfUnsetField, ruleStateMachineSchemaCheck, ruleMarshalCoverage, ruleSchemaCanonical, rulePrunes(schemaFiles, "V5", 2), ruleRewriterDescends(schemaFiles, "V8", 2), rulePreviousSchemasPositional)
+	reg("C03", ruleUnionTagsPrintedVerbatim, ruleEnumFallbackKeepsTheBaseType, ruleOptionalFieldSymmetry, ruleUnionTagDecision, ruleEnumDefaultBaseIsInt32, ruleUnionIndexSkipsNull, ruleEmittedSymbols, rulePlan, ruleJsonKinds, ruleTrivialRecordTrait, ruleJsonNamesAreModelNames, ruleCppEnumUnderlyingType)
 	reg("C08", ruleResolvedDefinitionSwitchesResolveAliases, ruleAborts(ndjsonCommonFiles, "P4j", 1), ruleDefinitionSwitchesResolveAliases, ruleAliasNameOnlyForTheAliasedUnion, ruleUnionDtypesBeforeTheirUsers, ruleEmittedLambdasCapture, ruleContextNamespaceThreaded, ruleEmptyDimensionListRejected, ruleNoContradictoryShapeTests, ruleGeneralizeUnderlying, ruleOptionalDeref(backendFiles, "NP1", 20), ruleDocstringQuotePadding, ruleEmittedSymbols, ruleSwitchDefaults(backendFiles, "P4", 25), ruleReservedTables, ruleIdentifierHelpers, ruleDependenciesFirst, ruleOptionGating, ruleUniquenessVsMangling)
-	reg("C19", ruleResolvedDefinitionSwitchesResolveAliases, ruleEveryPatternBranchEmitsTheCaseExpression, ruleShadowedVariableIsRead, ruleFoldKeepsResult, ruleArithmeticOnNumbersOnly, ruleGeneralizeUnderlying, ruleTypingSymmetric, ruleCommonTypeMap, ruleEmitterSiblings, ruleParenthesisation, ruleOperatorTokens, rulePromotionNotBypassed, ruleConversionAlwaysExplicit, ruleMatlabConversionClass, ruleSizeFunctionTokens)
+	reg("C19", rulePrunes(func(f string) bool { return strings.HasSuffix(f, "/pkg/dsl/validation_computed_fields.go") }, "V5", 1), ruleResolvedDefinitionSwitchesResolveAliases, ruleEveryPatternBranchEmitsTheCaseExpression, ruleShadowedVariableIsRead, ruleFoldKeepsResult, ruleArithmeticOnNumbersOnly, ruleGeneralizeUnderlying, ruleTypingSymmetric, ruleCommonTypeMap, ruleEmitterSiblings, ruleParenthesisation, ruleOperatorTokens, rulePromotionNotBypassed, ruleConversionAlwaysExplicit, ruleMatlabConversionClass, ruleSizeFunctionTokens)
 	reg("C13", ruleExpressionScalarTags, ruleModelDirectoryReadRecursively, ruleShorthandArrayWithoutDimensions, ruleDecodeLoopLeavesOnError, rulePlan, ruleAliasTable, ruleFilesAreCombined, ruleSpellingErased, ruleShorthandTwins, ruleDocCommentSuffix, ruleTypeTags, ruleDimensionItemSpellings, ruleSchemaCanonical, rulePrunes(topoSortFiles, "V5", 2))
 	reg("C07", ruleStateCounterIsWide, ruleExitClosesThroughStateCheck, ruleStateMachine, ruleNoReturnBeforeStateGuard)
-	reg("C02", ruleConditionalTargetAssignmentsHaveElse, ruleAborts(ndjsonCommonFiles, "P4j", 1), ruleEmittedFlagsNamesOnlyWhenComplete, ruleEmittedReadersOverwrite, ruleJsonKinds, ruleUnionTagDecision, ruleKindTests, ruleOptionalFieldSymmetry, ruleJsonNamesAreModelNames)
-	reg("C14", ruleUnionIndexUnsignedOnTheWire, ruleJsonNamesAreModelNames, ruleEnumDefaultBaseIsInt32, ruleUnionIndexSkipsNull, ruleNoContradictoryShapeTests, rulePlan, ruleUnionTagDecision, ruleRecordOrder, ruleOptionalFieldSymmetry, ruleTrivialRecordTrait, ruleMatlabExtentOrderAgrees)
+	reg("C02", ruleUnionTagsPrintedVerbatim, ruleEnumFallbackKeepsTheBaseType, ruleConditionalTargetAssignmentsHaveElse, ruleAborts(ndjsonCommonFiles, "P4j", 1), ruleEmittedFlagsNamesOnlyWhenComplete, ruleEmittedReadersOverwrite, ruleJsonKinds, ruleUnionTagDecision, ruleKindTests, ruleOptionalFieldSymmetry, ruleJsonNamesAreModelNames)
+	reg("C14", ruleUnionTagsPrintedVerbatim, ruleEnumFallbackKeepsTheBaseType, ruleUnionIndexUnsignedOnTheWire, ruleJsonNamesAreModelNames, ruleEnumDefaultBaseIsInt32, ruleUnionIndexSkipsNull, ruleNoContradictoryShapeTests, rulePlan, ruleUnionTagDecision, ruleRecordOrder, ruleOptionalFieldSymmetry, ruleTrivialRecordTrait, ruleMatlabExtentOrderAgrees)
 	reg("C10", ruleAborts(ndjsonCommonFiles, "P4j", 1), ruleSameNodeRecursionDiscriminated, ruleNilableFieldsBeforeAbortingDefault, ruleNilReachesNoAbortingDefault, ruleNoUncheckedAssertionsInFrontEnd, ruleYamlDecodedStrictly, ruleSinksOnlyGrow, rulePassOrder, rulePairAccess, ruleConstIndex(frontEndNoEvolution, "P2", 30), ruleMakeBounds, ruleErrorProvenance, ruleBreakInSwitchInLoop, rulePositions, ruleNodeLiteralsPositioned, ruleBigIndex, ruleAborts(frontEndNoEvolution, "P4", 25), ruleDecodeLoopLeavesOnError, ruleContextLiteralsComplete, ruleDecodeIntoPointerPointer, ruleNullTypeOnlyInUnions, ruleOptionalDeref(func(f string) bool { return frontEndNoEvolution(f) || evolutionFiles(f) }, "NP1", 33),
 		ruleE3(frontScope, "E3"), ruleCollectPackages, ruleBinaryOperatorTokens, ruleReflectiveWalkTerminates)
 	reg("C20", ruleEveryReturnedDirectoryIsWatched, ruleWhoMayWrite, ruleWriteIfNeeded, ruleWatchSetUnchangedOnFailure, ruleWatchStartsBeforeGeneratingAndAlwaysGenerates, ruleNoRunTimeGlobals, ruleWatchSerialised, ruleWatchRecovers, ruleChdirRestored, ruleWatchEveryEventSchedules, ruleWatchSurvivesErrors, ruleWatchInputsNotMutated)
-	reg("C18", ruleDepthTestBeforeMemoLookup, ruleDependenciesFirst, ruleMemoKeysAgree, ruleCollectPackages, ruleTemporaryCwdPathsAbsolute, ruleNamespaceFlattening, ruleAllModelsValidated, ruleNoSelfComparison(frontEndFile, "E6", 1), ruleLookedUpMapsAreFilled(frontEndFile, "D1", 15), ruleE2(frontScope, "E2"), ruleE5(frontScope, "E5"))
-	reg("C11", ruleAborts(ndjsonCommonFiles, "P4j", 1), ruleContextPositionTests, ruleSinksSharedAndVerdictsUsed, ruleYamlDecodedStrictly, ruleWrapperRecursion, ruleSinksOnlyGrow, ruleParseCachePerPackage, ruleValidateBeforeWrite, ruleWhoMayWrite, ruleAllModelsValidated, rulePassesWalkWholeEnvironment, ruleLookedUpMapsAreFilled(frontEndFile, "D1", 15), ruleNoSelfComparison(frontEndFile, "E6", 1), ruleE1(inMod, "E1"), ruleE2(inMod, "E2"), ruleE5(inMod, "E5"))
-	reg("C09", ruleResultsOfPureFunctionsUsed, ruleDefinitionsKeyedByIdentity, ruleShadowedVariableIsRead, rulePointersToScalarsComparedByValue, ruleSinksSharedAndVerdictsUsed, ruleIntegerBoundsMatchBaseType, ruleSymbolTableWritesScoped, ruleArithmeticOnNumbersOnly, ruleSinksOnlyGrow, ruleParseCachePerPackage, rulePassOrder, ruleVisitorCoverage("VisitorWithContext.VisitChildren", "V1", "V2", 30), ruleVisitorCoverage("defaultRewriteImpl", "V3", "V4", 30), ruleAllModelsValidated, ruleFilesAreCombined, ruleLookedUpMapsAreFilled(frontEndFile, "D1", 15), ruleNoSelfComparison(frontEndFile, "E6", 1), rulePassesWalkWholeEnvironment, ruleArityCheckedBeforeResolution, rulePrunes(dslValidationFiles, "V5", 20), ruleContextPositionTests,
+	reg("C18", ruleDefinitionEqualityComparesNamespaces, ruleDepthTestBeforeMemoLookup, ruleDependenciesFirst, ruleMemoKeysAgree, ruleCollectPackages, ruleTemporaryCwdPathsAbsolute, ruleNamespaceFlattening, ruleAllModelsValidated, ruleNoSelfComparison(frontEndFile, "E6", 1), ruleLookedUpMapsAreFilled(frontEndFile, "D1", 15), ruleE2(frontScope, "E2"), ruleE5(frontScope, "E5"))
+	reg("C11", ruleDecodeLoopLeavesOnError, ruleAborts(ndjsonCommonFiles, "P4j", 1), ruleContextPositionTests, ruleSinksSharedAndVerdictsUsed, ruleYamlDecodedStrictly, ruleWrapperRecursion, ruleSinksOnlyGrow, ruleParseCachePerPackage, ruleValidateBeforeWrite, ruleWhoMayWrite, ruleAllModelsValidated, rulePassesWalkWholeEnvironment, ruleLookedUpMapsAreFilled(frontEndFile, "D1", 15), ruleNoSelfComparison(frontEndFile, "E6", 1), ruleE1(inMod, "E1"), ruleE2(inMod, "E2"), ruleE5(inMod, "E5"))
+	reg("C09", ruleDefinitionEqualityComparesNamespaces, ruleResultsOfPureFunctionsUsed, ruleDefinitionsKeyedByIdentity, ruleShadowedVariableIsRead, rulePointersToScalarsComparedByValue, ruleSinksSharedAndVerdictsUsed, ruleIntegerBoundsMatchBaseType, ruleSymbolTableWritesScoped, ruleArithmeticOnNumbersOnly, ruleSinksOnlyGrow, ruleParseCachePerPackage, rulePassOrder, ruleVisitorCoverage("VisitorWithContext.VisitChildren", "V1", "V2", 30), ruleVisitorCoverage("defaultRewriteImpl", "V3", "V4", 30), ruleAllModelsValidated, ruleFilesAreCombined, ruleLookedUpMapsAreFilled(frontEndFile, "D1", 15), ruleNoSelfComparison(frontEndFile, "E6", 1), rulePassesWalkWholeEnvironment, ruleArityCheckedBeforeResolution, rulePrunes(dslValidationFiles, "V5", 20), ruleContextPositionTests,
 		ruleE1(frontScope, "E1"), ruleE2(frontScope, "E2"), ruleE5(frontScope, "E5"))
 	reg("C12", rulePointersToScalarsComparedByValue, ruleKeptFilesAreRecorded, ruleConsoleWriterWithoutTime, ruleNoRunTimeGlobals, ruleMapOrder, ruleSinkSort, ruleCommutativeCallbacks, ruleNoNondeterminism, ruleNoConcurrencyInPipeline, ruleWriteIfNeeded, ruleWhoMayWrite)
 }
